@@ -54,6 +54,9 @@ def near_zero_of_pi_fn(rng, fn, near):
     n = rng.choice([0, 1, 2, 5, 100, 10 ** 6, -3, -77])
     zero = n + (0.5 if fn == "cospi" else 0.0)
     d = rng.choice([2.0 ** -rng.randint(8, 40), rng.uniform(1e-6, 0.01)]) if near else rng.uniform(0.06, 0.44)
+    if near and rng.random() < 0.3:
+        n = rng.choice([0, 0, 1, -1, 2]); zero = n + (0.5 if fn == "cospi" else 0.0)
+        d = 2.0 ** -rng.randint(41, 52) * rng.choice([1, 1, 3])          # a few ulps from the zero
     return zero + rng.choice([1, -1]) * d
 
 
@@ -215,10 +218,15 @@ def halfint_checks(rng, n, direct, calls):
     from mpmath import fp
     cnt = 0
     for i in range(n):
-        k = rng.choice([rng.randint(-50, 50), rng.randint(-2 ** 40, 2 ** 40), rng.randint(-2 ** 51, 2 ** 51)])
-        for fn, x, want in (("sinpi", float(k), 0), ("cospi", float(k), -1 if k & 1 else 1),
-                            ("sinpi", k + 0.5, -1 if k & 1 else 1), ("cospi", k + 0.5, 0)):
-            if abs(k) >= 2 ** 51 and x != int(x): continue
+        k = rng.choice([rng.randint(-50, 50), rng.randint(-2 ** 40, 2 ** 40), rng.randint(-2 ** 51, 2 ** 51),
+                        rng.choice([1, -1]) * rng.randint(2 ** 52, 2 ** 53), rng.choice([1, -1]) * int(float(rng.randint(2 ** 53, 2 ** 70))),
+                        rng.choice([1, -1]) * int(float(10 ** rng.randint(20, 300)))])
+        xk = float(k)
+        if Fraction(xk) != k: continue            # k itself not representable
+        for fn, x, want, exact_arg in (("sinpi", xk, 0, Fraction(k)), ("cospi", xk, -1 if k & 1 else 1, Fraction(k)),
+                                       ("sinpi", k + 0.5, -1 if k & 1 else 1, Fraction(k) + Fraction(1, 2)),
+                                       ("cospi", k + 0.5, 0, Fraction(k) + Fraction(1, 2))):
+            if Fraction(x) != exact_arg: continue        # k + 1/2 is not representable for |k| >= 2^52
             cnt += 1
             v = getattr(fp, fn)(x)
             if type(v) is not float or v != want:
